@@ -123,6 +123,57 @@ Section Loops.
   Qed.
 End Loops.
 
+
+(* ---------------------------------------------------------------------------------------------- *)
+(* the inner loop of ParetoFront.update                                                             *)
+(* ---------------------------------------------------------------------------------------------- *)
+Section Scan.
+  Variable A : Type.
+  Variable fit : A -> list Z.
+  Variable sim : A -> A -> bool.
+  Variable x : A.
+
+  (* loop-carried locals, in the order of their first assignment in the loop body:
+     is_dominated, dominates_one, to_remove, has_twin *)
+  Definition S4 : Type := (bool * bool * list Z * bool)%type.
+
+  Definition scan1 (i : Z) (y : A) (v : S4) : ctl S4 :=
+    let '(isd, d1, tr, tw) := v in
+    if negb d1 && fit_dom (fit y) (fit x) then Break (true, d1, tr, tw)
+    else if fit_dom (fit x) (fit y) then Next (isd, true, tr ++ [i], tw)
+    else if fit_eq (fit x) (fit y) && sim x y then Break (isd, d1, tr, true)
+    else Next (isd, d1, tr, tw).
+
+  Fixpoint scan_ctl (hs : list A) (i : Z) (v : S4) : ctl S4 :=
+    match hs with
+    | [] => Next v
+    | y :: r => match scan1 i y v with
+                | Next v' => scan_ctl r (i + 1) v'
+                | c => c
+                end
+    end.
+
+  Lemma scan_loop {W : World} (body : Z * A -> S4 -> M (ctl S4)) (s : st W) :
+    (forall i y v, body (i, y) v s = Some (scan1 i y v, s)) ->
+    forall hs i v, for_ctl (enumerate_from i hs) body v s = Some (scan_ctl hs i v, s).
+  Proof.
+    intros H hs; induction hs as [|y hs IH]; intros i v; cbn; [reflexivity|].
+    unfold bind. rewrite H. destruct (scan1 i y v); cbn; [apply IH|reflexivity|reflexivity].
+  Qed.
+
+  Lemma scan_ctl_spec : forall hs i d1 tr,
+    match scan_ctl hs i (false, d1, tr, false) with
+    | Next (isd, _, tr', tw) | Break (isd, _, tr', tw) => pf_scan A fit sim x hs i d1 tr = (isd, tw, tr')
+    | Return => False
+    end.
+  Proof.
+    induction hs as [|y hs IH]; intros i d1 tr; cbn [scan_ctl pf_scan scan1]; [reflexivity|].
+    destruct (negb d1 && fit_dom (fit y) (fit x)); [reflexivity|].
+    destruct (fit_dom (fit x) (fit y)); [apply IH|].
+    destruct (fit_eq (fit x) (fit y) && sim x y); [reflexivity|apply IH].
+  Qed.
+End Scan.
+
 (* ---------------------------------------------------------------------------------------------- *)
 (* the value-level world: regenerated methods = Model/C08_Archive.v                                 *)
 (* ---------------------------------------------------------------------------------------------- *)
@@ -177,4 +228,214 @@ Section Value.
     - intros x u s. unfold hof_step, lift_n.
       crush_with ltac:(first [ rew_m | scan_sim x ]).
   Qed.
+
+  (* the inner loop of ParetoFront.update is pf_scan; the removal loop is remove_all *)
+  Ltac pf_loops x :=
+    match goal with
+    | |- context [for_ctl (enumerate_from ?i ?l) ?b ?v ?s] =>
+        rewrite (@scan_loop ind fitness similar x VWi b s)
+          by (intros ? ? [[[? ?] ?] ?]; unfold scan1; crush_with rew_m)
+    | |- context [scan_ctl ind fitness similar x ?hs ?i (false, ?d1, ?tr, false)] =>
+        let P := fresh "P" in
+        pose proof (scan_ctl_spec ind fitness similar x hs i d1 tr) as P;
+        destruct (scan_ctl ind fitness similar x hs i (false, d1, tr, false)) as [[[[? ?] ?] ?]|[[[? ?] ?] ?]|];
+        [ rewrite P | rewrite P | destruct P ]
+    | |- context [for_ctl ?l ?b ?u ?s] =>
+        rewrite (@for_ctl_fold VWi _ (fun o i => match o with None => None | Some h' => remove ind h' i end) b)
+          by first [ reflexivity | intros; crush_with rew_m ]
+    end.
+
+  Lemma gen_pf_update_v : forall pop h,
+    @gen_pf_update VWi pop h = lift_u (pf_update ind fitness similar h pop).
+  Proof.
+    intros pop h. unfold gen_pf_update, pf_update, lift_u. rt_unfold.
+    match goal with
+    | |- context [for_ctl pop ?b ?u h] => rewrite (@for_ctl_fold VWi _ (pf_step ind fitness similar) b)
+    end.
+    - crush_with idtac.
+    - reflexivity.
+    - intros x u s. unfold pf_step, remove_all.
+      crush_with ltac:(first [ rew_m | pf_loops x ]).
+  Qed.
 End Value.
+
+(* histories: the regenerated methods packaged like the hand model (Model/C08_GenApi.v) *)
+Section ValueApi.
+  Variable ind : Type.
+  Variable fitness : ind -> list Z.
+  Variable similar : ind -> ind -> bool.
+
+  Lemma gen_apply_op_eq : forall kind h o,
+    gen_apply_op ind fitness similar kind h o = apply_op ind fitness similar kind h o.
+  Proof.
+    intros kind h [p|x|i|]; cbn [gen_apply_op apply_op]; unfold run_u.
+    - destruct kind as [m|]; [rewrite gen_hof_update_v | rewrite gen_pf_update_v]; unfold lift_u;
+        [destruct (hof_update ind fitness similar m h p) | destruct (pf_update ind fitness similar h p)]; reflexivity.
+    - now rewrite gen_insert_v.
+    - rewrite gen_remove_v. unfold lift_u. now destruct (remove ind h i).
+    - now rewrite gen_clear_v.
+  Qed.
+
+  Lemma gen_trace_eq : forall kind ops h,
+    gen_trace ind fitness similar kind h ops = trace ind fitness similar kind h ops.
+  Proof.
+    intros kind ops; induction ops as [|o r IH]; intros h; cbn [gen_trace trace]; [reflexivity|].
+    rewrite gen_apply_op_eq. destruct (apply_op ind fitness similar kind h o); [now rewrite IH|reflexivity].
+  Qed.
+
+  Lemma fold_ext {S B} (f g : option S -> B -> option S) :
+    (forall o b, f o b = g o b) -> forall l o, fold_left f l o = fold_left g l o.
+  Proof. intros H l; induction l as [|b l IH]; intros o; cbn; [reflexivity|]. now rewrite H, IH. Qed.
+
+  Lemma gen_hof_run_from_eq : forall m h0 batches,
+    gen_hof_run_from ind fitness similar m h0 batches = hof_run_from ind fitness similar m h0 batches.
+  Proof.
+    intros m h0 batches. unfold gen_hof_run_from, hof_run_from. apply fold_ext.
+    intros [h|] b; [|reflexivity]. unfold run_u. rewrite gen_hof_update_v. unfold lift_u.
+    now destruct (hof_update ind fitness similar m h b).
+  Qed.
+
+  Lemma gen_pf_run_from_eq : forall h0 batches,
+    gen_pf_run_from ind fitness similar h0 batches = pf_run_from ind fitness similar h0 batches.
+  Proof.
+    intros h0 batches. unfold gen_pf_run_from, pf_run_from. apply fold_ext.
+    intros [h|] b; [|reflexivity]. unfold run_u. rewrite gen_pf_update_v. unfold lift_u.
+    now destruct (pf_update ind fitness similar h b).
+  Qed.
+
+  Lemma gen_hof_run_eq : forall m batches,
+    gen_hof_run ind fitness similar m batches = hof_run ind fitness similar m batches.
+  Proof. intros. apply gen_hof_run_from_eq. Qed.
+
+  Lemma gen_pf_run_eq : forall batches, gen_pf_run ind fitness similar batches = pf_run ind fitness similar batches.
+  Proof. intros. apply gen_pf_run_from_eq. Qed.
+End ValueApi.
+
+(* ---------------------------------------------------------------------------------------------- *)
+(* the heap-level world: regenerated methods = Model/C08_Heap.v                                     *)
+(* ---------------------------------------------------------------------------------------------- *)
+Section HeapLevel.
+  Variable sim : obj -> obj -> bool.
+  Local Notation HWi := (HW sim).
+
+  Lemma gen_len_h : forall s, @gen_len HWi s = Some (zlen (hitems (snd s)), s).
+  Proof. intros [hp a]. unfold gen_len. crush_with idtac. Qed.
+
+  Lemma gen_getitem_h : forall i s,
+    @gen_getitem HWi i s = match py_get (hitems (snd s)) i with Some x => Some (x, s) | None => None end.
+  Proof. intros i [hp a]. unfold gen_getitem. crush_with idtac. Qed.
+
+  Lemma gen_iter_h : forall s, @gen_iter HWi s = Some (hitems (snd s), s).
+  Proof. intros [hp a]. unfold gen_iter. crush_with idtac. Qed.
+
+  Ltac rew_h0 := first [ rewrite gen_len_h | rewrite gen_getitem_h | rewrite gen_iter_h ].
+
+  Lemma gen_insert_h : forall x s, @gen_insert HWi x s = Some (tt, h_insert (fst s) (snd s) x).
+  Proof. intros x [hp a]. unfold gen_insert, h_insert. crush_with rew_h0. Qed.
+
+  Lemma gen_remove_h : forall i s,
+    @gen_remove HWi i s = match h_remove (snd s) i with Some a' => Some (tt, (fst s, a')) | None => None end.
+  Proof. intros i [hp a]. unfold gen_remove, h_remove. crush_with rew_h0. Qed.
+
+  Lemma gen_clear_h : forall s, @gen_clear HWi s = Some (tt, (fst s, mkharch [] [])).
+  Proof. intros [hp a]. unfold gen_clear. crush_with rew_h0. Qed.
+
+  Ltac rew_h := first [ rew_h0 | rewrite gen_insert_h | rewrite gen_remove_h | rewrite gen_clear_h ].
+
+  Ltac scan_sim_h x :=
+    match goal with
+    | |- context [for_ctl ?l ?b ?u (?hp, ?a)] =>
+        rewrite (@scan_any HWi _ (hsim sim hp x) b (hp, a)) by (intros; crush_with rew_h)
+    | |- context [anyM ?f ?l (?hp, ?a)] =>
+        rewrite (@any_existsb HWi _ (hsim sim hp x) f (hp, a)) by (intros; crush_with rew_h)
+    end.
+
+  Lemma gen_hof_update_h : forall m pop s,
+    @gen_hof_update HWi m pop s = lift_u (h_hof_update sim m (fst s) (snd s) pop).
+  Proof.
+    intros m pop [hp a]. unfold gen_hof_update, h_hof_update, lift_u. rt_unfold.
+    match goal with
+    | |- context [for_ctl pop ?b ?u (hp, a)] =>
+        rewrite (@for_ctl_fold HWi _ (h_hof_step sim m (hd_error pop)) b)
+    end.
+    - crush_with idtac.
+    - reflexivity.
+    - intros x u [hp' a']. unfold h_hof_step.
+      crush_with ltac:(first [ rew_h | scan_sim_h x ]).
+  Qed.
+
+  (* the removal loop: the store is not touched *)
+  Lemma rem_loop_h (body : Z -> unit -> @M HWi (ctl unit)) (hp : heap) :
+    (forall i u a, body i u (hp, a) = match h_remove a i with
+                                      | Some a' => Some (Next tt, (hp, a'))
+                                      | None => None
+                                      end) ->
+    forall l u a, for_ctl l body u (hp, a) = match h_remove_all a l with
+                                             | Some a' => Some (Next tt, (hp, a'))
+                                             | None => None
+                                             end.
+  Proof.
+    intros H l; induction l as [|i l IH]; intros u a; cbn [for_ctl].
+    - destruct u; reflexivity.
+    - unfold bind. rewrite H. unfold h_remove_all. cbn [fold_left].
+      destruct (h_remove a i) as [a'|]; cbn.
+      + apply IH.
+      + rewrite fold_none by reflexivity. reflexivity.
+  Qed.
+
+  Ltac pf_loops_h x :=
+    match goal with
+    | |- context [for_ctl (enumerate_from ?i ?l) ?b ?v (?hp, ?a)] =>
+        rewrite (@scan_loop nat (hfit hp) (hsim sim hp) x HWi b (hp, a))
+          by (intros ? ? [[[? ?] ?] ?]; unfold scan1; crush_with rew_h)
+    | |- context [scan_ctl nat ?f ?g x ?hs ?i (false, ?d1, ?tr, false)] =>
+        let P := fresh "P" in
+        pose proof (scan_ctl_spec nat f g x hs i d1 tr) as P;
+        destruct (scan_ctl nat f g x hs i (false, d1, tr, false)) as [[[[? ?] ?] ?]|[[[? ?] ?] ?]|];
+        [ rewrite P | rewrite P | destruct P ]
+    | |- context [for_ctl ?l ?b ?u (?hp, ?a)] =>
+        rewrite (rem_loop_h b hp) by (intros; crush_with rew_h)
+    end.
+
+  Lemma gen_pf_update_h : forall pop s,
+    @gen_pf_update HWi pop s = lift_u (h_pf_update sim (fst s) (snd s) pop).
+  Proof.
+    intros pop [hp a]. unfold gen_pf_update, h_pf_update, lift_u. rt_unfold.
+    match goal with
+    | |- context [for_ctl pop ?b ?u (hp, a)] => rewrite (@for_ctl_fold HWi _ (h_pf_step sim) b)
+    end.
+    - crush_with idtac.
+    - reflexivity.
+    - intros x u [hp' a']. unfold h_pf_step.
+      crush_with ltac:(first [ rew_h | pf_loops_h x ]).
+  Qed.
+
+  Lemma gen_h_apply_eq : forall kind s o, gen_h_apply sim kind s o = h_apply sim kind s o.
+  Proof.
+    intros kind [hp a] [l ob|p|x|i|]; cbn [gen_h_apply h_apply fst snd]; unfold run_u.
+    - reflexivity.
+    - destruct kind as [m|]; [rewrite gen_hof_update_h | rewrite gen_pf_update_h]; unfold lift_u; cbn [fst snd];
+        [destruct (h_hof_update sim m hp a p) | destruct (h_pf_update sim hp a p)]; reflexivity.
+    - now rewrite gen_insert_h.
+    - rewrite gen_remove_h. cbn [fst snd]. now destruct (h_remove a i).
+    - now rewrite gen_clear_h.
+  Qed.
+
+  Lemma gen_h_trace_eq : forall kind hops s, gen_h_trace sim kind s hops = h_trace sim kind s hops.
+  Proof.
+    intros kind hops; induction hops as [|o r IH]; intros s; cbn [gen_h_trace h_trace]; [reflexivity|].
+    rewrite gen_h_apply_eq. destruct (h_apply sim kind s o); [now rewrite IH|reflexivity].
+  Qed.
+End HeapLevel.
+
+Lemma gen_methods_v :
+  forall (ind : Type) (fitness : ind -> list Z) (similar : ind -> ind -> bool) (h : hof ind),
+  (forall x, @gen_insert (VW ind fitness similar) x h = Some (tt, insert ind fitness h x)) /\
+  (forall i, @gen_remove (VW ind fitness similar) i h = lift_u (remove ind h i)) /\
+  @gen_clear (VW ind fitness similar) h = Some (tt, clear h) /\
+  (forall m pop, @gen_hof_update (VW ind fitness similar) m pop h = lift_u (hof_update ind fitness similar m h pop)) /\
+  (forall pop, @gen_pf_update (VW ind fitness similar) pop h = lift_u (pf_update ind fitness similar h pop)).
+Proof.
+  intros. repeat split; intros;
+    [apply gen_insert_v | apply gen_remove_v | apply gen_clear_v | apply gen_hof_update_v | apply gen_pf_update_v].
+Qed.
